@@ -240,16 +240,18 @@ func (l *Listener) Close() {
 }
 
 // UDPDrops returns the kernel's count of datagrams it discarded for the UDP sockets bound to the
-// given local port (column "drops" of /proc/net/udp and /proc/net/udp6: receive-buffer overflow),
-// or -1 when the tables cannot be read.  A monitor uses it to tell "the peer did not answer" from
-// "the kernel threw the datagram away".
+// given local port (column "drops" of /proc/net/udp and /proc/net/udp6: receive-buffer overflow).
+// -1: the tables cannot be read at all (nothing can be said); 0 also when no such socket exists
+// any more (a closed socket has lost nothing that its owner could still have answered).  A monitor
+// uses it to tell "the peer did not answer" from "the kernel threw the datagram away".
 func UDPDrops(port int) int64 {
-	total, found := int64(0), false
+	total, readable := int64(0), false
 	for _, f := range []string{"/proc/net/udp", "/proc/net/udp6"} {
 		b, err := os.ReadFile(f)
 		if err != nil {
 			continue
 		}
+		readable = true
 		for i, l := range strings.Split(string(b), "\n") {
 			fs := strings.Fields(l)
 			if i == 0 || len(fs) < 13 {
@@ -263,14 +265,12 @@ func UDPDrops(port int) int64 {
 			if err != nil || int(p) != port {
 				continue
 			}
-			d, err := strconv.ParseInt(fs[len(fs)-1], 10, 64)
-			if err == nil {
+			if d, err := strconv.ParseInt(fs[len(fs)-1], 10, 64); err == nil {
 				total += d
-				found = true
 			}
 		}
 	}
-	if !found {
+	if !readable {
 		return -1
 	}
 	return total
